@@ -12,6 +12,30 @@ CLAIMED = {
             "seeded search over schedules and delivery orders of streams that are written and then closed by the client, the server or both (multiplexed on 1..8 connections and singleplex): the side that did not close must read exactly the written bytes and then the broken-stream error; writes after an observed close must fail; bytes that had arrived before a local Close must stay readable; blocked readers must return",
             "5 C03", "sampled; in singleplex the closer first consumes the peer's bytes (closing the only stream closes the connection)",
             "seeded schedule/delivery search, close-ordering oracle"),
+    "C02": ("fault_enumeration",
+            "every arrival permutation of n<=5 (quick) / n<=6 (thorough) frames x closing frame present or not x three reader policies (read after all, drain after each arrival, reader task interleaved by the scheduler at statement level) x three first sequence numbers (0, 2^32-3, 2^64-n-1): complete enumeration; plus sampled permutations of up to 64 frames. The arriving payload aliases a buffer the harness overwrites after Write returns (as deplex reuses its buffer). Oracle: bytes read equal the payloads in sequence order, Write reports the close exactly at the arrival that completes the lower-numbered frames, nothing stays parked",
+            "5 C02", "reader interleavings in the concurrent policy are sampled per case, not enumerated; duplicated frames are outside the property's premise",
+            "complete enumeration of arrival orders + seeded reader interleavings"),
+    "C04": ("fault_enumeration",
+            "every payload length 1..max (max=1531 for a 1800-byte limit in quick, 16132 for the shipped 16401 in thorough) x four methods x both buffer placements, with sequence numbers on both sides of the padding threshold, random stream ids and closing flags: Cloak's encoder output is decoded by an independent reference codec (layout, padding rule, size limit), round-tripped by Cloak's decoder, and the reference encoder's output is decoded by Cloak (complete enumeration; this part is input enumeration riding along, see DESIGN.md). Simulation part: worlds in which one endpoint of the session is the independent reference peer, under the C01 workload and schedule/delivery search, in both directions",
+            "5 C04", "the reference codec and peer are written from the protocol description; their correctness is part of the trusted base",
+            "length enumeration against a reference codec + mixed-implementation simulated sessions"),
+    "C05": ("fault_enumeration",
+            "every 1-, 2- and 3-message exchange over lengths {0,1,5,6,40(,300)} cut at every byte position (complete; thorough adds a full-size 16640-byte record cut at every position), each reader-side; plus random exchanges with 1..6 concurrent writer tasks on one TLSConn (statement-level schedules), scripted multi-cuts, scheduler-chosen partial deliveries and coalescing, reader buffers smaller than a record. Oracle: one Read = one message, whole and in wire order; the wire parses into exactly the written records, one underlying write each; an over-long record yields an error and no data",
+            "5 C05", "TLSConn framing only in this check; the WebSocket framing runs under C06/C10/C20 worlds",
+            "cut-position enumeration + seeded writer schedules, wire tap parse"),
+    "C11": ("fault_enumeration",
+            "for each AEAD method x five kinds of genuine message (in-order data, future data, closing, first frame of a new stream, session-closing) x payload sizes 1/16/100: every single-bit flip at every position (complete: 30840 cases), injected on an extra connection of a primed session at a quiescent moment; plus sampled truncations, extensions, multi-byte edits, re-sealing under another key or method and arbitrary byte strings of 0..20480 bytes under all four methods. Oracle under AEAD: the digest of the receiving session's logical state is unchanged by the forged record and the genuine message is still processed afterwards; under plain: no panic. Two open known findings (header bytes 12 and 13 are not authenticated)",
+            "5 C11", "bit flips are complete for the listed message shapes, sampled for large/padded messages",
+            "forged-record injection enumeration, state-digest oracle"),
+    "C14": ("exploration",
+            "unordered sessions on 1..8 connections, 1..4 streams, concurrent senders in both directions, datagram sizes dense around the per-frame maximum and above it, reader buffers around the datagram size, all four methods, random delivery order/segmentation. Oracle: every Read returns exactly one datagram written on that stream, at most once; on a healthy session every accepted datagram arrives; an accepted Write puts exactly one record <= limit carrying the whole datagram on the wire, a refused one nothing; a short buffer reports io.ErrShortBuffer and the next adequate Read returns that same datagram",
+            "5 C14", "client.RouteUDP needs a concrete *net.UDPConn and cannot run in the bubble: its per-source-address stream map is not covered",
+            "seeded schedule/delivery search, datagram identity oracle + wire tap"),
+    "C19": ("exploration",
+            "1..3 sessions x 1..4 connections x 1..4 streams share one LimitedValve (rates log-uniform in 16640 B/s..10 MB/s) with backlogged senders both ways on the bubble clock. Oracle: for every pair of events, server->client message bytes written to the simulated wire, and client->server records released by the limiter (time of the first read after the record was consumed), stay within rate*dt*1.01 + one second of burst; application-level receipt is bounded from time zero; a backlogged sender over >=20 virtual seconds gets >=95% of the rate",
+            "5 C19", "virtual time only passes when no task can run (no thread stall between token wait and write); rates below one maximal record per second are not exercised",
+            "virtual-clock envelope check over all event pairs"),
     "C12": ("fault_enumeration",
             "reset / EOF injected on each connection and direction after each of the first 14 writes and at 14 byte offsets inside records of a fixed exchange (complete enumeration of that space, each case under a drawn schedule), plus random workloads with scripted or scheduler-chosen resets/EOFs, Session.Close from either side racing with OpenStream/Read/Write/Accept/Stream.Close, stream churn and inactivity-timer phases (1..30 s virtual). Oracles: readers see a prefix then an error, no task left blocked at final quiescence, both sessions and every connection end up closed, OpenStream refused afterwards, stream-table/open-count equality at every quiescent moment, inactivity close only with zero open streams and no later than one timeout",
             "5 C12", "fault positions outside the enumerated grid are sampled; backpressure stalls that never end are not injected",
